@@ -197,6 +197,9 @@ func (d *Directory) handleBind(t TestingT) func(w *gldap.ResponseWriter, r *glda
 	}
 	return func(w *gldap.ResponseWriter, r *gldap.Request) {
 		d.logger.Debug(op)
+		// the directory is stateful (see Set*) and handlers run concurrently
+		d.mu.Lock()
+		defer d.mu.Unlock()
 		resp := r.NewBindResponse(gldap.WithResponseCode(gldap.ResultInvalidCredentials))
 		defer func() {
 			_ = w.Write(resp)
@@ -224,8 +227,6 @@ func (d *Directory) handleBind(t TestingT) func(w *gldap.ResponseWriter, r *glda
 				if len(values) > 0 && string(m.Password) == values[0] {
 					resp.SetResultCode(gldap.ResultSuccess)
 					if d.controls != nil {
-						d.mu.Lock()
-						defer d.mu.Unlock()
 						resp.SetControls(d.controls...)
 					}
 					return
@@ -286,6 +287,9 @@ func (d *Directory) handleSearchGeneric(t TestingT) func(w *gldap.ResponseWriter
 	}
 	return func(w *gldap.ResponseWriter, r *gldap.Request) {
 		d.logger.Debug(op)
+		// the directory is stateful (see Set*) and handlers run concurrently
+		d.mu.Lock()
+		defer d.mu.Unlock()
 		res := r.NewSearchDoneResponse(gldap.WithResponseCode(gldap.ResultNoSuchObject))
 		defer func() {
 			err := w.Write(res)
@@ -377,8 +381,6 @@ func (d *Directory) handleSearchGeneric(t TestingT) func(w *gldap.ResponseWriter
 				}
 			}
 			if d.controls != nil {
-				d.mu.Lock()
-				defer d.mu.Unlock()
 				res.SetControls(d.controls...)
 			}
 			res.SetResultCode(gldap.ResultSuccess)
@@ -393,6 +395,9 @@ func (d *Directory) handleSearchGroups(t TestingT) func(w *gldap.ResponseWriter,
 	}
 	return func(w *gldap.ResponseWriter, r *gldap.Request) {
 		d.logger.Debug(op)
+		// the directory is stateful (see Set*) and handlers run concurrently
+		d.mu.Lock()
+		defer d.mu.Unlock()
 		res := r.NewSearchDoneResponse(gldap.WithResponseCode(gldap.ResultNoSuchObject))
 		defer func() {
 			err := w.Write(res)
@@ -440,8 +445,6 @@ func (d *Directory) handleSearchGroups(t TestingT) func(w *gldap.ResponseWriter,
 			d.logger.Debug("found entries", "op", op, "count", foundEntries)
 
 			if d.controls != nil {
-				d.mu.Lock()
-				defer d.mu.Unlock()
 				res.SetControls(d.controls...)
 			}
 			res.SetResultCode(gldap.ResultSuccess)
@@ -456,6 +459,9 @@ func (d *Directory) handleSearchUsers(t TestingT) func(w *gldap.ResponseWriter, 
 	}
 	return func(w *gldap.ResponseWriter, r *gldap.Request) {
 		d.logger.Debug(op)
+		// the directory is stateful (see Set*) and handlers run concurrently
+		d.mu.Lock()
+		defer d.mu.Unlock()
 		res := r.NewSearchDoneResponse(gldap.WithResponseCode(gldap.ResultNoSuchObject))
 		defer func() {
 			err := w.Write(res)
@@ -491,8 +497,6 @@ func (d *Directory) handleSearchUsers(t TestingT) func(w *gldap.ResponseWriter, 
 		if foundEntries > 0 {
 			d.logger.Debug("found entries", "op", op, "count", foundEntries)
 			if d.controls != nil {
-				d.mu.Lock()
-				defer d.mu.Unlock()
 				res.SetControls(d.controls...)
 				fmt.Println(d.controls)
 			}
@@ -508,6 +512,9 @@ func (d *Directory) handleModify(t TestingT) func(w *gldap.ResponseWriter, r *gl
 	}
 	return func(w *gldap.ResponseWriter, r *gldap.Request) {
 		d.logger.Debug(op)
+		// the directory is stateful (see Set*) and handlers run concurrently
+		d.mu.Lock()
+		defer d.mu.Unlock()
 		res := r.NewModifyResponse(gldap.WithResponseCode(gldap.ResultNoSuchObject))
 		defer func() {
 			err := w.Write(res)
@@ -536,8 +543,6 @@ func (d *Directory) handleModify(t TestingT) func(w *gldap.ResponseWriter, r *gl
 			res.SetDiagnosticMessage(fmt.Sprintf("more than one match: %d entries", len(entries)))
 			return
 		}
-		d.mu.Lock()
-		defer d.mu.Unlock()
 		e := entries[0]
 		if entries[0].Attributes == nil {
 			e.Attributes = []*gldap.EntryAttribute{}
@@ -585,6 +590,9 @@ func (d *Directory) handleAdd(t TestingT) func(w *gldap.ResponseWriter, r *gldap
 	}
 	return func(w *gldap.ResponseWriter, r *gldap.Request) {
 		d.logger.Debug(op)
+		// the directory is stateful (see Set*) and handlers run concurrently
+		d.mu.Lock()
+		defer d.mu.Unlock()
 		res := r.NewResponse(gldap.WithApplicationCode(gldap.ApplicationAddResponse), gldap.WithResponseCode(gldap.ResultOperationsError))
 		defer func() {
 			err := w.Write(res)
@@ -610,8 +618,6 @@ func (d *Directory) handleAdd(t TestingT) func(w *gldap.ResponseWriter, r *gldap
 			attrs[a.Type] = a.Vals
 		}
 		newEntry := gldap.NewEntry(m.DN, attrs)
-		d.mu.Lock()
-		defer d.mu.Unlock()
 		d.users = append(d.users, newEntry)
 		res.SetResultCode(gldap.ResultSuccess)
 	}
@@ -624,6 +630,9 @@ func (d *Directory) handleDelete(t TestingT) func(w *gldap.ResponseWriter, r *gl
 	}
 	return func(w *gldap.ResponseWriter, r *gldap.Request) {
 		d.logger.Debug(op)
+		// the directory is stateful (see Set*) and handlers run concurrently
+		d.mu.Lock()
+		defer d.mu.Unlock()
 		res := r.NewResponse(gldap.WithResponseCode(gldap.ResultNoSuchObject), gldap.WithApplicationCode(gldap.ApplicationDelResponse))
 		defer func() {
 			err := w.Write(res)
@@ -646,8 +655,6 @@ func (d *Directory) handleDelete(t TestingT) func(w *gldap.ResponseWriter, r *gl
 				res.SetDiagnosticMessage(fmt.Sprintf("more than one match: %d entries", len(foundAt)))
 				return
 			}
-			d.mu.Lock()
-			defer d.mu.Unlock()
 			d.users = append(d.users[:foundAt[0]], d.users[foundAt[0]+1:]...)
 			res.SetResultCode(gldap.ResultSuccess)
 			return
@@ -659,8 +666,6 @@ func (d *Directory) handleDelete(t TestingT) func(w *gldap.ResponseWriter, r *gl
 				res.SetDiagnosticMessage(fmt.Sprintf("more than one match: %d entries", len(foundAt)))
 				return
 			}
-			d.mu.Lock()
-			defer d.mu.Unlock()
 			d.groups = append(d.groups[:foundAt[0]], d.groups[foundAt[0]+1:]...)
 			res.SetResultCode(gldap.ResultSuccess)
 			return
@@ -833,7 +838,9 @@ func (d *Directory) ClientKey() string {
 
 // Controls returns all the current bind controls for the Directory
 func (d *Directory) Controls() []gldap.Control {
-	return d.controls
+	d.mu.Lock()
+	defer d.mu.Unlock()
+	return append([]gldap.Control(nil), d.controls...)
 }
 
 // SetControls sets the bind controls.
@@ -848,7 +855,9 @@ func (d *Directory) SetControls(controls ...gldap.Control) {
 
 // Users returns all the current user entries in the Directory
 func (d *Directory) Users() []*gldap.Entry {
-	return d.users
+	d.mu.Lock()
+	defer d.mu.Unlock()
+	return append([]*gldap.Entry(nil), d.users...)
 }
 
 // SetUsers sets the user entries.
@@ -863,7 +872,9 @@ func (d *Directory) SetUsers(users ...*gldap.Entry) {
 
 // Groups returns all the current group entries in the Directory
 func (d *Directory) Groups() []*gldap.Entry {
-	return d.groups
+	d.mu.Lock()
+	defer d.mu.Unlock()
+	return append([]*gldap.Entry(nil), d.groups...)
 }
 
 // SetGroups sets the group entries.
@@ -888,11 +899,15 @@ func (d *Directory) SetTokenGroups(tokenGroups map[string][]*gldap.Entry) {
 
 // TokenGroups will return the tokenGroup entries
 func (d *Directory) TokenGroups() map[string][]*gldap.Entry {
+	d.mu.Lock()
+	defer d.mu.Unlock()
 	return d.tokenGroups
 }
 
 // AllowAnonymousBind returns the allow anon bind setting
 func (d *Directory) AllowAnonymousBind() bool {
+	d.mu.Lock()
+	defer d.mu.Unlock()
 	return d.allowAnonymousBind
 }
 
